@@ -397,7 +397,12 @@ fn main() {
   let mut api_hits = 0u64;
   let mut api_errors = 0u64;
   let mut api_panics = 0u64;
-  std::panic::set_hook(Box::new(|_| {}));
+  std::panic::set_hook(Box::new(|info| {
+    let msg = info.payload().downcast_ref::<String>().cloned().unwrap_or_default();
+    if msg.starts_with("engine bug") {
+      eprintln!("{msg}");
+    }
+  }));
   for rq in 0..n_api_requests {
     let src = rng.pick(&bodies).clone();
     let toks: Vec<String> = src
@@ -484,7 +489,8 @@ fn main() {
         continue;
       }
     };
-    // every traced kernel call belongs to one (hit, field): find it by the stored text + options
+    // every traced kernel call belongs to one (hit, field): find it by the stored text + tags; the
+    // case carries the options of the REQUEST (what the caller asked for), not those the kernel received
     let mut used = vec![false; calls.len()];
     for hit in res.hits.iter() {
       api_hits += 1;
@@ -520,8 +526,6 @@ fn main() {
               && calls[c].text == text
               && calls[c].pre_tag == fo.pre_tag
               && calls[c].post_tag == fo.post_tag
-              && calls[c].fragment_size == fo.fragment_size
-              && calls[c].number_of_fragments == fo.number_of_fragments
           });
           let Some(c) = idx else {
             panic!("engine bug: no traced highlight call for hit {} field {field}", hit.doc_id)
